@@ -216,7 +216,12 @@ def local_trait_candidates(interp, c, self_ty, nargs):
     if not out:
         return []
     best = max(s for s, _ in out)
-    return [b for s, b in out if s == best]
+    cands = [b for s, b in out if s == best]
+    if len(cands) > 1:
+        exact = [b for b in cands if norm_ty(b.ret_ty) == S or (b.param_tys and norm_ty(b.param_tys[0]) == S)]
+        if exact:
+            cands = exact
+    return cands
 
 
 def _last_segs(t):
@@ -246,7 +251,9 @@ def resolve_callee(interp, callee, argv, caller):
     if c.kind == 'trait':
         S = c.self_ty
         dyn = False
-        if is_type_param(S) and argv:
+        if S == 'Self' and interp.self_stack:
+            S = interp.self_stack[-1]
+        elif is_type_param(S) and argv:
             rt = runtime_ty(argv[0])
             if rt:
                 S = rt
@@ -266,7 +273,13 @@ def resolve_callee(interp, callee, argv, caller):
             else:
                 r = ('body', b)
         else:
-            r = ('model', f'{c.trait_head}::{c.method}')
+            # provided (default) method of a local trait
+            dflt = [b for b in interp.mir.by_method.get(c.method, []) if b.span is None and len(b.params) == len(argv)
+                    and b.name.split('::')[-2:-1] == [c.trait_head]]
+            if len(dflt) == 1:
+                r = ('body', dflt[0], S)
+            else:
+                r = ('model', f'{c.trait_head}::{c.method}')
         interp._resolve_cache[ck] = r
         return r
     ck = (callee, None, len(argv))
